@@ -390,6 +390,131 @@ theorem relative_roundtrip_samedoc_rootless (oka : Grammar.OkAuth G) (we : Gramm
   exact relative_roundtrip_samedoc_core G ok okp oka we a b ha hb hsch (by rw [haa, hab]) habs0 hhA hhB hdfA
     (fun _ => by rw [hpa, hpb]) (fun _ => by rw [hpb]; exact he0) hne hcls hsd
 
+
+/-- **an empty target path between two rootless paths** (`s:?q` relative to `s:a/b` is `..?q`): the
+reference is `..` for every segment of the base's directory, and resolving it climbs back to the
+empty path -/
+theorem relative_roundtrip_empty_rootless (oka : Grammar.OkAuth G) (we : Grammar.OkWE G) (a b : Text)
+    (ha : Matches G.full a) (hb : Matches G.full b)
+    (hsch : (split a).scheme = (split b).scheme)
+    (haa : (split a).authority = none) (hab : (split b).authority = none)
+    (hpa : isAbs (split a).path = false) (hpb : isAbs (split b).path = false)
+    (hhB : ((nsegs (Path.parent_or_empty (split b).path)).head? == some [cDot, cDot]) = false)
+    (hroot : nsegs (split a).path = [])
+    (hbelow : nsegs (Path.parent_or_empty (split b).path) ≠ [])
+    (hnsp : sdCond a b = false) :
+    ∃ r t, Ref.relative_to a b = some r ∧ Ref.resolve r b = some t ∧ key t = key a := by
+  have haR : Matches G.reference a := Matches.altL ha
+  have hbR : Matches G.reference b := Matches.altL hb
+  obtain ⟨vA, wA⟩ := split_valid G ok a haR
+  obtain ⟨vB, wB⟩ := split_valid G ok b hbR
+  -- nothing is compared: the remainder is the whole directory of the base
+  obtain ⟨hrem, hLdef, hLne0, hcls⟩ := root_remainder a b hroot hbelow
+  have habs0 : (Path.is_absolute (split a).path !=
+      (Path.is_absolute (split b).path || ((split b).authority.isSome && Path.is_empty (split b).path))) = false := by
+    rw [is_absolute_eq, is_absolute_eq, hpa, hpb, hab]; rfl
+  have hhA : ((nsegs (split a).path).head? == some [cDot, cDot]) = false := by rw [hroot]; rfl
+  have hbody := relative_body_explicit_core G ok okp we a b haR hbR habs0 hhA hhB hLne0 hcls
+  rw [hnsp] at hbody
+  simp only [Bool.false_eq_true, if_false] at hbody
+  have hrel : Ref.relative_to a b =
+      some (recompose (pathQF (renderRel (relSegs a b)) (split a).query (split a).fragment)) := by
+    rw [relative_to_eq_body G ok okp oka we a b haR hbR hsch (by rw [haa, hab])]; exact hbody
+  obtain ⟨r', er', vr'⟩ := relative_to_total G ok okp oka we a b haR hbR
+  rw [hrel] at er'
+  simp only [Option.some.injEq] at er'
+  have hptB : PathText (split b).path := pathText_of_wf _ wB
+  have he0 : nsegs (Path.parent_or_empty (split b).path) = nsegsOf false (segs (split b).path).dropLast := by
+    obtain ⟨h1, h2, _⟩ := parent_segs_rel (split b).path hpb
+    unfold nsegs
+    rw [h2, h1]
+  have hdfB : DotFree (nsegs (Path.parent_or_empty (split b).path)) := by
+    apply semiNormal_head _ hhB
+    rw [he0]; exact semiNormal_nsegsOf _
+  obtain ⟨bs, hbs⟩ : ∃ bs, bs = nsegs (Path.parent_or_empty (split b).path) := ⟨_, rfl⟩
+  rw [← hbs] at hLdef hbelow hdfB
+  obtain ⟨L, hL⟩ : ∃ L, L = bs.map fun _ => segDotDot := ⟨_, rfl⟩
+  rw [hLdef, ← hL] at hrel er' hLne0
+  have hLns : ∀ s ∈ L, cSlash ∉ s ∧ PathText s := by
+    intro s hs
+    rw [hL] at hs
+    simp only [List.mem_map] at hs
+    obtain ⟨_, _, rfl⟩ := hs
+    exact ⟨by decide, pathText_dotdot⟩
+  obtain ⟨hpt, hfc, hsS, hrelp⟩ := renderRel_props L hLns
+  have wfr := wf_pathQF (renderRel L) (split a).query (split a).fragment hpt hfc hsS wA.query
+  obtain ⟨R, hRdef⟩ : ∃ R, R = recompose (pathQF (renderRel L) (split a).query (split a).fragment) := ⟨_, rfl⟩
+  rw [← hRdef] at hrel er'
+  have hsplit : split R = pathQF (renderRel L) (split a).query (split a).fragment := by
+    rw [hRdef]; exact Lemmas.split_recompose _ wfr
+  have hvr : Matches G.reference R := by rw [er']; exact vr'
+  have hRne : renderRel L ≠ [] := renderRel_ne_nil L hLne0 (fun s hs => (hLns s hs).1)
+  have hS : splitSlash (renderRel L) = L ∨ splitSlash (renderRel L) = segDot :: L :=
+    splitSlash_renderRel L hLne0 (fun s hs => (hLns s hs).1)
+  have hskL : symSkipsGo false bs L = false := by
+    rw [hL]
+    exact noSkip_nonempty false _ _ (by
+      intro s hs
+      simp only [List.mem_map] at hs
+      obtain ⟨_, _, rfl⟩ := hs; decide)
+  have hsk : symSkipsGo false (nsegsOf false (segs (split b).path).dropLast) (splitSlash (renderRel L)) = false := by
+    rw [← he0, ← hbs]
+    rcases hS with e | e <;> rw [e]
+    · exact hskL
+    · simp only [symSkipsGo]
+      have : (segDot != segDot && segDot != segDotDot && segDot.isEmpty && bs.isEmpty) = false := by simp
+      rw [this]
+      simp only [Bool.false_eq_true, if_false]
+      have hp : (listSymPush false bs segDot).1 = bs := by simp [listSymPush]
+      rw [hp]
+      exact hskL
+  have hrd := removeDots_merge_rel (split b).path (renderRel L) hpb hRne hrelp hsk
+  have hwalk : walkR (nsegsOf false (segs (split b).path).dropLast) (splitSlash (renderRel L)) = [] := by
+    rw [← he0, ← hbs]
+    have hw : walkR bs L = [] := by
+      rw [hL]
+      have := walkR_ups bs [] (by simpa using hdfB)
+      simpa using this
+    rcases hS with e | e <;> rw [e]
+    · exact hw
+    · rw [walkR_dot]; exact hw
+  rw [hwalk] at hrd
+  simp only [List.isEmpty_nil, Bool.not_true, Bool.and_false, Bool.false_eq_true, if_false, List.append_nil,
+    joinSlash] at hrd
+  obtain ⟨sb, hsb⟩ : ∃ sb, (split b).scheme = some sb := by
+    have := ((C02.full_iff_scheme G ok b).mp hb).2
+    exact Option.isSome_iff_exists.mp this
+  have hT : resolveSpec b R = tgt sb none [] (split a).query (split a).fragment := by
+    have hpe : (renderRel L).isEmpty = false := by cases h : renderRel L <;> simp_all
+    simp only [resolveSpec, transform, hsplit, pathQF, hpe, Bool.false_eq_true, if_false, hrelp, hab,
+      Option.isSome_none, hrd, hsb, tgt]
+  have wfT : WF (tgt sb none [] (split a).query (split a).fragment) :=
+    { scheme := fun s hs => by simp only [tgt, Option.some.injEq] at hs; subst hs; exact wB.scheme sb hsb
+      authority := fun x hx => by simp [tgt] at hx
+      path := fun c hc => by simp [tgt] at hc
+      query := wA.query
+      abempty := fun h => by simp [tgt] at h
+      noSS := fun _ => rfl
+      noColon := fun hn _ => by simp [tgt] at hn }
+  have hres : Ref.resolve R b = some (recompose (resolveSpec b R)) :=
+    resolve_relative_relbase G ok okp b R hb hvr (by rw [hsplit]; rfl) (by rw [hsplit]; rfl)
+      (by rw [hsplit]; exact hRne) (by rw [hsplit]; exact hrelp) hab hpb
+      (by rw [hsplit]; exact hsk) (by rw [hT]; rfl)
+  refine ⟨R, _, hrel, hres, ?_⟩
+  have hsT := Lemmas.split_recompose _ wfT
+  rw [hT]
+  unfold key
+  rw [hsT]
+  simp only [tgt, Option.map_none, haa, hsch, hsb]
+  congr 1
+  unfold pathKey
+  rw [hpa]
+  have h1 : isAbs ([] : Text) = false := rfl
+  have h2 : nsegs ([] : Text) = [] := by decide
+  rw [h1, h2, hroot]
+
+
+
 end
 
 end IrefVerif.Lemmas
